@@ -198,6 +198,35 @@ pub fn byte_faults(bytes: &[u8], rng: &mut Rng, budget_random: usize, thin: usiz
             out.push(Fault { class: "value-emptied", section: section_of(bytes, *a), descr: format!("value emptied in {:?}", String::from_utf8_lossy(line)), bytes: splice(bytes, *a, *b, &t) });
         }
     }
+    // 7b. tree bodies blanked in place (same length, so no offset moves): whole body, and all but the first line
+    {
+        let mut from = d;
+        let mut k = 0;
+        while let Some(p) = find(&bytes[from.min(bytes.len())..], b"]\n{\n").map(|x| x + from) {
+            let body = p + 4;
+            let Some(e) = find(&bytes[body..], b"}\n").map(|x| x + body) else { break };
+            k += 1;
+            if thin <= 1 || k % thin == 0 {
+                let mut v = bytes.to_vec();
+                for b in v[body..e].iter_mut() {
+                    if *b != b'\n' {
+                        *b = b' ';
+                    }
+                }
+                out.push(Fault { class: "tree-body-blanked", section: "DATA".into(), descr: format!("tree body at data byte {} blanked", body - d), bytes: v });
+                if let Some(l) = find(&bytes[body..e], b"\n").map(|x| x + body + 1) {
+                    let mut v = bytes.to_vec();
+                    for b in v[l..e].iter_mut() {
+                        if *b != b'\n' {
+                            *b = b' ';
+                        }
+                    }
+                    out.push(Fault { class: "tree-body-first-line-only", section: "DATA".into(), descr: format!("tree body at data byte {} cut to its first line", body - d), bytes: v });
+                }
+            }
+            from = e;
+        }
+    }
     // 9. non-UTF-8 / odd bytes in the header
     for _ in 0..(budget_random / 4).max(4) {
         let o = rng.below(d.max(1));
@@ -238,6 +267,7 @@ pub fn text_faults(spec: &VoiceSpec, rng: &mut Rng, thin: usize) -> Vec<Fault> {
                 "leaf-zero", "leaf-huge", "leaf-overflow", "no-closing-brace", "no-opening-brace", "state-text", "state-negative", "state-overflow",
                 "pattern-tag", "requote", "unbalanced-quote", "bad-pattern-char", "empty-pattern-list", "tokens-swapped", "non-utf8", "single-node-to-node",
                 "empty-section", "trees-only-whitespace", "qs-no-braces", "node-id-text", "extra-token", "missing-token", "nul-byte", "crlf",
+                "tree-body-emptied", "tree-body-blanked", "tree-body-first-line-only", "tree-duplicated", "tree-deleted", "questions-only", "all-quotes-removed",
             ]
         };
         for m in muts {
@@ -413,6 +443,26 @@ fn mutate_text(t: &str, m: &str, rng: &mut Rng) -> (Vec<u8>, bool) {
             })
         }
         "crlf" => Some(t.replace('\n', "\r\n")),
+        "tree-body-emptied" => t.find("]\n{\n").and_then(|p| t[p..].find("}\n").map(|e| format!("{}]\n{{\n{}", &t[..p], &t[p + e..]))),
+        "tree-body-blanked" => t.find("]\n{\n").and_then(|p| {
+            t[p..].find("}\n").map(|e| {
+                let body: String = t[p + 4..p + e].chars().map(|c| if c == '\n' { '\n' } else { ' ' }).collect();
+                format!("{}{}{}", &t[..p + 4], body, &t[p + e..])
+            })
+        }),
+        "tree-body-first-line-only" => t.find("]\n{\n").and_then(|p| {
+            t[p..].find("}\n").and_then(|e| t[p + 4..p + e].find('\n').map(|l| format!("{}{}", &t[..p + 4 + l + 1], &t[p + e..])))
+        }),
+        "tree-duplicated" => t.find("{*}[").map(|p| {
+            let end = t[p + 1..].find("{*}[").map(|e| p + 1 + e).unwrap_or(t.len());
+            format!("{}{}{}", &t[..end], &t[p..end], &t[end..])
+        }),
+        "tree-deleted" => t.find("{*}[").map(|p| {
+            let end = t[p + 1..].find("{*}[").map(|e| p + 1 + e).unwrap_or(t.len());
+            format!("{}{}", &t[..p], &t[end..])
+        }),
+        "questions-only" => t.find("{*}[").map(|p| t[..p].to_string()),
+        "all-quotes-removed" => Some(t.replace('"', "")),
         "non-utf8" | "nul-byte" => None,
         _ => None,
     };
